@@ -1066,6 +1066,9 @@ func (e *runtimeEnv) makeCtx(kind string) {
 		e.ctx = nil
 		c, stop := context.WithDeadline(context.Background(), time.Now().Add(time.Hour))
 		e.realCtx, e.realStop = c, stop
+	case "neardeadline": // a REAL deadline that expires by itself while the run is parked in a (long) retry wait
+		e.ctx = nil
+		e.realCtx, e.realStop = context.WithTimeout(context.Background(), nearDeadline)
 	case "child": // a child (with a value and a far timeout of its own) of the context that gets cancelled
 		e.ctx = nil
 		parent, stop := context.WithCancel(context.Background())
@@ -1078,6 +1081,9 @@ func (e *runtimeEnv) makeCtx(kind string) {
 }
 
 type ctxKey struct{}
+
+// nearDeadline: how long after its creation the context of kind "neardeadline" expires
+const nearDeadline = 45 * time.Millisecond
 
 const runWatchdog = 10 * time.Second
 
